@@ -16,6 +16,8 @@ import (
 	"verif/vs"
 )
 
+type ownCtxKey struct{}
+
 type wiring struct {
 	name   string
 	sub    int // index into subscribers pool
@@ -146,6 +148,8 @@ func scenarioD(H int, withNoPub bool, shapes []int, msgsPerTopic, c int, inFligh
 				for _, o := range iv.outs {
 					if w.shape <= 2 {
 						o.Metadata.Set("handler", w.name)
+						// every fresh output has a context of its own (values, deadlines): the router adds to it
+						o.SetContext(context.WithValue(context.Background(), ownCtxKey{}, o.UUID))
 					}
 				}
 				invs = append(invs, iv)
@@ -206,6 +210,9 @@ func scenarioD(H int, withNoPub bool, shapes []int, msgsPerTopic, c int, inFligh
 					hn := m.Metadata.Get("handler")
 					if hn == "" {
 						continue
+					}
+					if own := m.Context().Value(ownCtxKey{}); own != m.UUID {
+						vs.Fail("publishing", "produced message %s reaches the publisher with the context of %v (its own context was replaced)", m.UUID, own)
 					}
 					if got := message.HandlerNameFromCtx(m.Context()); got != hn {
 						vs.Fail("context", "produced message of %s reaches publisher p%d with handler name %q in its context", hn, pi, got)
